@@ -39,6 +39,9 @@ def main():
         if not os.path.exists(mp):
             continue
         meta = json.load(open(mp))
+        if meta.get("stale_after"):
+            print("%s skipped (patch predates fix %s)" % (name, meta["stale_after"]))
+            continue
         files = touched(os.path.join(d, "patch.diff"))
         props = sorted(p for p, fs in anc.items() if fs & files and p != meta["property"])
         scratch = tempfile.mkdtemp(prefix="verif-bx-", dir="/var/tmp")
